@@ -34,7 +34,8 @@ C08_OPS = ["ceil", "floor", "trunc", "round", "nearbyint", "rint", "nearbyint_as
 C04_OPS = ["load_aligned", "load_unaligned", "store_aligned", "store_unaligned", "broadcast", "bool_load_aligned", "bool_load_unaligned",
            "bool_store_aligned", "bool_store_unaligned", "gather", "gather_s", "scatter"]
 
-C06_OPS = [o for o in entries.OPS if o.startswith("batch_cast_to_") or o.startswith("bitwise_cast_to_")] + ["to_int", "to_float"]
+C06_OPS = [o for o in entries.OPS if o.startswith("batch_cast_to_") or o.startswith("bitwise_cast_to_")] + ["to_int", "to_float"] + \
+          [o for o in entries.OPS if o.startswith("load_as_from_") or o.startswith("store_as_to_")]
 
 C05_OPS = [o for o in entries.OPS if o.split("_")[0] in ("zip", "swizzle", "compress", "expand", "extract", "insert", "slide", "rotate", "shuffle")]
 C05_OPS.append("transpose")
